@@ -240,3 +240,14 @@ PROPS["C19"] = {
     ],
     "floor_q": 1000, "floor_t": 50000,
 }
+
+PROPS["C17"] = {
+    "level": "exploration",
+    "technique": "rapid-generated watch-event histories (add/modify/delete on the node-specific and group/default streams, duplicates, same-generation re-deliveries, other UIDs, invalid and plugin-refused configurations) fed to a real Agent; oracle = reference model of what the events say (node, group) and invariants over the recorded notify calls",
+    "rule": "direct unit: events are dispatched to Agent.updateNodeConfig/updateGroupConfig exactly as Agent.Start does; non-trivial = the history had a group/default update while a node-specific configuration existed and a deletion of the node-specific configuration that fell back to an existing group configuration; distinct = hash of the case",
+    "assumptions": ["validity is a function of the resource version (UID, generation), as in a cluster", "the fatal flag of the notify callback (process exit) is never raised"],
+    "units": [
+        {"name": "direct", "pkg": "./pkg/agent", "run": "^TestVerifC17Direct$", "replay_run": "^TestVerifC17DirectReplay$", "q": 30000, "t": 4800000},
+    ],
+    "floor_q": 1000, "floor_t": 50000,
+}
